@@ -24,13 +24,12 @@ META = dict(
     stubs=["PyArg_ParseTuple, Py_BuildValue, PyList_New/Append, PyUnicode_DecodeFSDefault[AndSize], PyErr_*, strcmp, strnlen, strncpy, getutent/setutent/endutent, socket/ioctl/close, syscall, getpriority/setpriority, sysinfo, __errno_location"],
     bounds=dict(quick=dict(utmp="one login record, all 384 bytes symbolic", ioprio="class and level any 32-bit int (round-trip claimed for class 0..3, level 0..7)", nic_name="lengths 0, 1, 15, 16, 40"),
                 thorough=dict(utmp="one record, all bytes symbolic; two records", ioprio="as quick", nic_name="lengths 0..20, 64, 255")),
-    outside=["everything inside CPython and libc (getmntent, getifaddrs, getnameinfo)", "the sanitizer-run formulation of the statement (a different technique)", "the parsing glibc's getmntent() does (escapes, field splitting): only the buffer-size contract of getmntent_r and the hand-over of the four strings are checked", "psutil_proc_cpu_affinity_get/set (symbolic CPU_SET indexing is not supported by cir)",
-             "psutil_convert_ipaddr's MAC loop", "wrong argument *types* (rejected inside PyArg_ParseTuple, which is trusted)"],
+    outside=["everything inside CPython and libc (getmntent, getifaddrs, getnameinfo)", "the sanitizer-run formulation of the statement (a different technique)", "the parsing glibc's getmntent() does (escapes, field splitting): only the buffer-size contract of getmntent_r and the hand-over of the four strings are checked",              "wrong argument *types* (rejected inside PyArg_ParseTuple, which is trusted)"],
     extra=dict(c_functions_encoded=["arch/linux/users.c:psutil_users", "arch/linux/proc.c:psutil_proc_ioprio_get", "arch/linux/proc.c:psutil_proc_ioprio_set", "_psutil_posix.c:psutil_net_if_mtu",
                                     "_psutil_posix.c:psutil_net_if_flags", "_psutil_posix.c:psutil_posix_getpriority", "_psutil_posix.c:psutil_posix_setpriority", "_psutil_common.c:psutil_check_pid_range",
                                     "arch/linux/mem.c:psutil_linux_sysinfo", "arch/linux/disk.c:psutil_disk_partitions"],
                ir="clang -S -emit-llvm -O0 -Xclang -disable-O0-optnone with the Linux macros of setup.py, regenerated from /repo on every run"),
-    labels=["memory-in-bounds", "cstring-within-record", "string-within-field", "users-fields", "ioprio-packing", "ioprio-roundtrip", "strncpy-in-bounds", "partitions-filter", "users-tuple"],
+    labels=["memory-in-bounds", "cstring-within-record", "string-within-field", "users-fields", "ioprio-packing", "ioprio-roundtrip", "strncpy-in-bounds", "partitions-filter", "users-tuple", "net_if_stats", "net_if_addrs", "address-text", "ifaddrs-tuples", "no-uninitialised-read"],
 )
 
 _IR = {}
@@ -49,6 +48,8 @@ def classify(what):
         return "string-within-field"
     if "overflow" in what:
         return "no-signed-overflow"
+    if "does not terminate" in what:
+        return "loops-terminate"
     if "strncpy" in what:
         return "strncpy-in-bounds"
     return "memory-in-bounds"
@@ -390,6 +391,507 @@ def small_c(ctx, fn):
     ctx.external("small-paths-completed", bool(res))
 
 
+# ---- proc.c: CPU affinity ------------------------------------------------------------------------------------------------------
+
+def _memset(I, st, w, c, dst, val, n, *rest):
+    nn = z3.simplify(n)
+    if not z3.is_bv_value(nn):
+        raise NotImplementedError("memset with symbolic length")
+    o = st.objs[dst.obj]
+    I.oblige(st, dst.off + nn.as_long() <= o.size, f"memset writes {nn.as_long()} bytes at {dst}: store out of bounds")
+    for i in range(min(nn.as_long(), o.size - dst.off)):
+        I.store(st, cir.Ptr(dst.obj, dst.off + i), 1, val)
+    return None
+
+
+@harness("C17.affinity_set_c", quick=[dict(n=n) for n in (0, 1, 2)], thorough=[dict(n=n) for n in (0, 1, 2, 3)])
+def affinity_set_c(ctx, n):
+    """psutil_proc_cpu_affinity_set: for a sequence of n integers of ANY value (negative, huge) every access to the cpu_set_t stays
+    in bounds, and the mask handed to sched_setaffinity(pid, sizeof(cpu_set_t), mask) has exactly the bits of the items that are
+    valid CPU numbers (0..1023) set; -1 is rejected with ValueError before the kernel is called."""
+    mod = module("arch/linux/proc.c")
+    vals = [ctx.int(f"v{i}", -(2**63), 2**63 - 1) for i in range(n)]
+    pidv = ctx.int("pid", -(2**31), 2**31 - 1)
+    mk = (lambda nm, v, w: z3.BitVec(nm, w)) if ctx.symbolic else (lambda nm, v, w: z3.BitVecVal(v, w))
+    items = [mk(f"v{i}", vals[i], 64) for i in range(n)]
+    pid = mk("pid", pidv, 32)
+    state = {"ints": [lambda w: pid]}
+
+    def parse(I, st, w, c, args, fmt, *outs):
+        f = cir.const_cstr(I, st, fmt).split(":")[0]
+        if f != "iO":
+            raise NotImplementedError("format " + f)
+        I.store(st, outs[0], 4, pid)
+        I.store(st, outs[1], 8, cir.newobj(I, st, "seq"))
+        return z3.BitVecVal(1, 32)
+
+    def getitem(I, st, w, c, seq_, i):
+        ii = z3.simplify(i)
+        k_ = st.new_obj(f"item{ii.as_long()}", 16)
+        st.objs[k_].cells[0] = (8, z3.BitVecVal(1, 64))
+        return cir.Ptr(k_, 0, 0, 16)
+
+    def aslong(I, st, w, c, o):
+        i = int(o.obj.split("#")[0][4:])
+        st.log.append(("aslong", i))
+        return items[i]
+
+    def setaff(I, st, w, c, pid_, len_, mask):
+        o = st.objs[mask.obj]
+        I.oblige(st, z3.ULE(len_, o.size - mask.off), "sched_setaffinity: load out of bounds: length larger than the mask object")
+        words = [I.load(st, cir.Ptr(mask.obj, mask.off + 8 * j), 8, False) for j in range(16)]
+        st.log.append(("setaffinity", pid_, len_, words))
+        return z3.BitVec("setaff_ret", 32)
+
+    stubs = {"@PyArg_ParseTuple": parse, "@PySequence_Check": lambda I, st, w, c, o: z3.BitVecVal(1, 32), "@PySequence_Size": lambda I, st, w, c, o: z3.BitVecVal(n, 64),
+             "@PySequence_GetItem": getitem, "@PyLong_AsLong": aslong, "@PyErr_Occurred": lambda I, st, w, c: cir.NULL, "@PyErr_SetString": lambda I, st, w, c, *a: st.log.append(("error", a[0].obj)),
+             "@PyErr_Format": lambda *a: cir.NULL, "@PyErr_SetFromErrno": lambda *a: cir.NULL, "@Py_TYPE": lambda I, st, w, c, o: cir.newobj(I, st, "type"), "@Py_XDECREF": cir.nop,
+             "@llvm.memset.p0i8.i64": _memset, "@sched_setaffinity": setaff, "@_Py_Dealloc": cir.nop}
+    I = cir.Interp(mod, stubs)
+    res = I.run("@psutil_proc_cpu_affinity_set", [cir.NULL, cir.NULL])
+    ok, why, bad_st = bool(res), "no completed path", None
+    for st, ret in res:
+        calls = [x for x in st.log if x[0] == "setaffinity"]
+        errs = [x for x in st.log if x[0] == "error"]
+        seen = len([x for x in st.log if x[0] == "aslong"])
+        minus1 = [I.sat(st, items[i] == -1)[0] == "sat" and I.sat(st, items[i] != -1)[0] == "unsat" for i in range(seen)]
+        if any(minus1):
+            if calls or not errs or not (isinstance(ret, cir.Ptr) and ret.obj is None):
+                ok, why, bad_st = False, "an item equal to -1 must raise ValueError before the kernel is called", st
+            continue
+        if len(calls) != 1:
+            ok, why, bad_st = False, f"sched_setaffinity called {len(calls)} times", st
+            continue
+        _, pid_, len_, words = calls[0]
+        want = [z3.BitVecVal(0, 64)] * 16
+        for v in items:
+            for j in range(16):
+                hit = z3.And(z3.ULT(v, 1024), z3.LShR(v, 6) == j)
+                want[j] = want[j] | z3.If(hit, z3.BitVecVal(1, 64) << (v & 63), z3.BitVecVal(0, 64))
+        cond = z3.And(pid_ == pid, len_ == 128, *[words[j] == want[j] for j in range(16)])
+        if not I.oblige(st, cond, "affinity_set: the mask handed to the kernel is not exactly the valid CPU numbers of the sequence (or pid / length wrong)"):
+            ok, why, bad_st = False, "mask/pid/length handed to sched_setaffinity", st
+
+    def assign(m):
+        out = {}
+        if m is None:
+            return out
+        vals_ = {d.name(): m[d] for d in m.decls()}
+        for nm in [f"v{i}" for i in range(n)] + ["pid"]:
+            if nm in vals_:
+                out[nm] = vals_[nm].as_signed_long()
+        return out
+
+    fid = [f for f in I.findings if f[0].startswith("affinity_set:")]
+    ctx.external("affinity-mask", ok and not fid, assign(fid[0][1]) if fid else assign(I.sat(bad_st)[1]) if bad_st is not None else {}, detail=fid[0][0] if fid else why)
+    I.findings = [f for f in I.findings if f not in fid]
+    report(ctx, I, ["memory-in-bounds"], assign)
+
+
+@harness("C17.affinity_get_c", quick=[dict(einval=e, nbits=b) for e, b in ((0, 3), (1, 2), (30, 1))], thorough=[dict(einval=e, nbits=b) for e, b in ((0, 6), (1, 3), (2, 3), (30, 1))])
+def affinity_get_c(ctx, einval, nbits):
+    """psutil_proc_cpu_affinity_get: sched_getaffinity() answers EINVAL `einval` times (mask too small) before it succeeds; the CPU
+    set is re-allocated at twice the size each time without the size computation overflowing (OverflowError past INT_MAX/2); the
+    list returned is exactly the set bits of the kernel's mask in ascending order (nbits symbolic bits, spread over the mask)."""
+    mod = module("arch/linux/proc.c")
+    bitsv = [ctx.int(f"bit{i}", 0, 1) for i in range(nbits)]
+    mk = (lambda nm, v, w: z3.BitVec(nm, w)) if ctx.symbolic else (lambda nm, v, w: z3.BitVecVal(v, w))
+    bits = [mk(f"bit{i}", bitsv[i], 8) for i in range(nbits)]
+    st0 = cir.State()
+    if ctx.symbolic:
+        for b in bits:
+            st0.pc.append(z3.ULE(b, 1))
+    POS = [0, 5, 63, 64, 70, 127][:nbits] if einval else [0, 5, 63, 7, 31, 62][:nbits]      # CPU numbers of the symbolic bits
+    state = {"ints": [lambda w: z3.BitVec("pid", 32)], "allocs": []}
+
+    def cpualloc(I, st, w, c, count):
+        cc = z3.simplify(count)
+        if not z3.is_bv_value(cc):
+            raise NotImplementedError("CPU_ALLOC with symbolic count")
+        size = ((cc.as_long() + 63) // 64) * 8
+        k_ = st.new_obj("cpuset", size)
+        st.log.append(("alloc", k_, cc.as_long(), size))
+        return cir.Ptr(k_, 0, 0, size)
+
+    def cpufree(I, st, w, c, p_):
+        st.log.append(("free", p_.obj))
+        return None
+
+    def getaff(I, st, w, c, pid_, size, mask):
+        o = st.objs[mask.obj]
+        I.oblige(st, z3.ULE(size, o.size - mask.off), "sched_getaffinity: store out of bounds: size larger than the allocated CPU set")
+        n_ = sum(1 for x in st.log if x[0] == "getaff")
+        st.log.append(("getaff", mask.obj, size))
+        if n_ < einval:
+            st.log.append(("errno", 22))
+            return z3.BitVecVal(-1, 32)
+        for j in range(o.size):
+            I.store(st, cir.Ptr(mask.obj, j), 1, z3.BitVecVal(0, 8))
+        for i, pos in enumerate(POS):
+            if pos // 8 < o.size:
+                cur = I.byte_at(st, mask.obj, pos // 8)
+                I.store(st, cir.Ptr(mask.obj, pos // 8), 1, cur | (bits[i] << (pos % 8)))
+        return z3.BitVecVal(0, 32)
+
+    def cpucount(I, st, w, c, size, mask):
+        o = st.objs[mask.obj]
+        I.oblige(st, z3.ULE(size, o.size - mask.off), "CPU_COUNT_S: load out of bounds: size larger than the allocated CPU set")
+        tot = z3.BitVecVal(0, 32)
+        for i, pos in enumerate(POS):
+            if pos // 8 < o.size:
+                tot = tot + z3.ZeroExt(24, bits[i])
+        return tot
+
+    def errno_loc(I, st, w, c):
+        k_ = st.new_obj("errno", 4, {0: z3.BitVecVal(22, 8), 1: z3.BitVecVal(0, 8), 2: z3.BitVecVal(0, 8), 3: z3.BitVecVal(0, 8)})
+        return cir.Ptr(k_, 0, 0, 4)
+
+    def fromlong(I, st, w, c, v):
+        o = cir.newobj(I, st, "int")
+        st.log.append(("int", o.obj, v))
+        return o
+
+    stubs = {"@PyArg_ParseTuple": parse_stub(state), "@__sched_cpualloc": cpualloc, "@__sched_cpufree": cpufree, "@sched_getaffinity": getaff, "@__sched_cpucount": cpucount,
+             "@__errno_location": errno_loc, "@PyErr_NoMemory": lambda *a: cir.NULL, "@PyErr_SetFromErrno": lambda *a: cir.NULL,
+             "@PyErr_SetString": lambda I, st, w, c, *a: st.log.append(("error", a[0].obj)), "@PyList_New": lambda I, st, w, c, n_: cir.newobj(I, st, "list"),
+             "@PyLong_FromLong": fromlong, "@PyList_Append": lambda I, st, w, c, l, x: z3.BitVecVal(0, 32) if st.log.append(("append", x.obj)) is None else None,
+             "@Py_XDECREF": cir.nop, "@_Py_Dealloc": cir.nop, "@fprintf": lambda I, st, w, c, *a: z3.BitVecVal(0, 32), "@psutil_debug": cir.nop}
+    I = cir.Interp(mod, stubs)
+    res = I.run("@psutil_proc_cpu_affinity_get", [cir.NULL, cir.NULL], st=st0, max_steps=60000)
+    ok, why, bad_st = bool(res), "no completed path", None
+    for st, ret in res:
+        allocs = [x for x in st.log if x[0] == "alloc"]
+        frees = [x[1] for x in st.log if x[0] == "free"]
+        if sorted(frees) != sorted(a[1] for a in allocs):
+            ok, why, bad_st = False, f"every CPU set allocated must be released exactly once: allocated {[a[1] for a in allocs]}, freed {frees}", st
+        if [a[2] for a in allocs] != [64 * 2**i for i in range(len(allocs))]:
+            ok, why, bad_st = False, f"CPU set sizes {[a[2] for a in allocs]}", st
+        errs = [x for x in st.log if x[0] == "error"]
+        if einval >= 26:
+            if not errs or not (isinstance(ret, cir.Ptr) and ret.obj is None) or "OverflowError" not in errs[0][1]:
+                ok, why, bad_st = False, "a kernel that never accepts the mask size must end in OverflowError", st
+            continue
+        ints = {x[1]: x[2] for x in st.log if x[0] == "int"}
+        apps = [ints.get(x[1]) for x in st.log if x[0] == "append"]
+        # the appended numbers, in order, are exactly the positions whose bit is 1 on this path
+        want = []
+        for i, pos in sorted(enumerate(POS), key=lambda t: t[1]):
+            one = I.sat(st, bits[i] == 1)[0] == "sat"
+            zero = I.sat(st, bits[i] == 0)[0] == "sat"
+            if one and zero:
+                ok, why, bad_st = False, f"path does not decide bit of CPU {pos}", st
+            if one and not zero:
+                want.append(pos)
+        got = [z3.simplify(a).as_signed_long() if a is not None and z3.is_bv_value(z3.simplify(a)) else None for a in apps]
+        if got != want:
+            ok, why, bad_st = False, f"CPUs reported {got}, mask has {want}", st
+
+    def assign(m):
+        out = {}
+        if m is None:
+            return out
+        vals_ = {d.name(): m[d] for d in m.decls()}
+        for i in range(nbits):
+            if f"bit{i}" in vals_:
+                out[f"bit{i}"] = vals_[f"bit{i}"].as_long()
+        return out
+
+    ctx.external("affinity-list", ok or (not res and bool(I.findings)), assign(I.sat(bad_st)[1]) if bad_st is not None else {}, detail=why)
+    report(ctx, I, ["memory-in-bounds", "loops-terminate"], assign)
+
+
+# ---- _psutil_posix.c: psutil_convert_ipaddr / psutil_net_if_addrs -------------------------------------------------------------
+
+def _hexch(n4):
+    n = z3.ZeroExt(4, n4)
+    return z3.If(z3.ULT(n, 10), n + 48, n + 87)
+
+
+@harness("C17.mac_c", quick=[dict(fam=f) for f in ("packet", "inet", "inet6", "other", "null")])
+def mac_c(ctx, fam):
+    """psutil_convert_ipaddr: for a link-layer address of any length glibc can hand over (sll_halen <= 24, the width of glibc's
+    sockaddr_ll_max storage) every read stays inside the address object, every write inside buf[NI_MAXHOST], and the text is the
+    address bytes as two lower-case hex digits each joined by ':'; for AF_INET/AF_INET6 getnameinfo() gets the right sockaddr length."""
+    mod = module("_psutil_posix.c")
+    size = {"packet": 36, "inet": 16, "inet6": 28, "other": 16, "null": 0}[fam]
+    famv = ctx.int("family", 0, 65535)
+    halen = ctx.int("halen", 0, 24)
+    data = [ctx.int(f"d{i}", 0, 255) for i in range(24)] if fam == "packet" else []
+    mk = (lambda n, v, w: z3.BitVec(n, w)) if ctx.symbolic else (lambda n, v, w: z3.BitVecVal(v, w))
+    family = mk("family", famv, 32)
+    st0 = cir.State()
+    if ctx.symbolic:
+        st0.pc.append(z3.And(family >= 0, family <= 65535))
+        st0.pc.append({"packet": family == 17, "inet": family == 2, "inet6": family == 10, "other": z3.And(family != 17, family != 2, family != 10), "null": family == family}[fam])
+    else:
+        want = {"packet": famv == 17, "inet": famv == 2, "inet6": famv == 10, "other": famv not in (2, 10, 17), "null": True}[fam]
+        ctx.assume(want)
+    if fam == "null":
+        addr = cir.NULL
+    else:
+        init = {}
+        if fam == "packet":
+            hl = mk("halen", halen, 8)
+            if ctx.symbolic:
+                st0.pc.append(z3.ULE(hl, 24))
+            init[11] = hl
+            for i in range(24):
+                init[12 + i] = mk(f"d{i}", data[i], 8)
+        k = st0.new_obj("sockaddr", size, init)
+        addr = cir.Ptr(k, 0, 0, size)
+    log_gni = []
+
+    def getnameinfo(I, st, w, c, sa, salen, host, hostlen, serv, servlen, flags):
+        o = st.objs[sa.obj]
+        wantlen = {"inet": 16, "inet6": 28}.get(fam)
+        I.oblige(st, salen == wantlen if wantlen else False, f"getnameinfo: sockaddr length is not sizeof(struct sockaddr_in{'6' if fam == 'inet6' else ''})")
+        I.oblige(st, z3.ULE(z3.ZeroExt(32, salen), o.size - sa.off), "getnameinfo: load out of bounds of the socket address")
+        ho = st.objs[host.obj]
+        I.oblige(st, z3.ULE(z3.ZeroExt(32, hostlen), ho.size - host.off), "getnameinfo: store out of bounds: host buffer length larger than the buffer")
+        I.oblige(st, flags == 1, "getnameinfo: not called with NI_NUMERICHOST")
+        for i in range(46):
+            I.store(st, cir.Ptr(host.obj, host.off + i), 1, z3.BitVec(f"host{i}", 8))
+        I.store(st, cir.Ptr(host.obj, host.off + 46), 1, z3.BitVecVal(0, 8))
+        st.log.append(("getnameinfo", sa.obj, host.obj))
+        return z3.BitVec("gni_err", 32)
+
+    def sprintf(I, st, w, c, dst, fmt, v):
+        f = cir.const_cstr(I, st, fmt)
+        if f != "%02x:":
+            raise NotImplementedError("sprintf format " + repr(f))
+        I.oblige(st, z3.ULT(v, 256), "sprintf('%02x:'): value wider than one byte, the text is not two hex digits per address byte")
+        b = z3.Extract(7, 0, v)
+        for i, ch in enumerate((_hexch(z3.Extract(7, 4, b)), _hexch(z3.Extract(3, 0, b)), z3.BitVecVal(58, 8), z3.BitVecVal(0, 8))):
+            I.store(st, cir.Ptr(dst.obj, dst.off + i), 1, ch)
+        st.log.append(("sprintf", dst.obj, dst.off, b))
+        return z3.BitVecVal(3, 32)
+
+    def build(I, st, w, c, fmt, *a):
+        f = cir.const_cstr(I, st, fmt)
+        if f == "s":
+            cir.cstring_obligations(I, st, a[0], "Py_BuildValue('s')")
+        st.log.append(("build", f, a))
+        return cir.newobj(I, st, "str")
+
+    stubs = {"@getnameinfo": getnameinfo, "@sprintf": sprintf, "@Py_BuildValue": build, "@Py_IncRef": cir.nop, "@Py_DecRef": cir.nop, "@_Py_Dealloc": cir.nop}
+    I = cir.Interp(mod, stubs)
+    res = I.run("@psutil_convert_ipaddr", [addr, family], st=st0)
+    ok, why, nb = bool(res), "no completed path", 0
+    for st, ret in res:
+        is_none = isinstance(ret, cir.Ptr) and ret.obj is not None and "_Py_NoneStruct" in ret.obj
+        builds = [x for x in st.log if x[0] == "build"]
+        if fam in ("null", "other"):
+            if not is_none or builds:
+                ok, why = False, "NULL address / unknown family must give None"
+            continue
+        if fam in ("inet", "inet6"):
+            g = [x for x in st.log if x[0] == "getnameinfo"]
+            if len(g) != 1 or (builds and (builds[0][2][0].obj != g[0][2])):
+                ok, why = False, "the text returned is not the buffer getnameinfo() filled"
+            nb += 1
+            continue
+        # AF_PACKET: the text built is hex(d0):hex(d1):...:hex(d[len-1]) NUL for len = sll_halen > 0, None for 0
+        hl = init[11]
+        if is_none:
+            if not I.oblige(st, hl == 0, "mac: None returned for a non-empty hardware address"):
+                ok, why = False, "None for a non-empty hardware address"
+            continue
+        if len(builds) != 1:
+            ok, why = False, "no text built"
+            continue
+        nb += 1
+        buf = builds[0][2][0]
+        nsp = len([x for x in st.log if x[0] == "sprintf"])
+        conds = [hl == nsp]
+        for i in range(nsp):
+            d = init[12 + i] if 12 + i < size else None
+            if d is None:
+                ok, why = False, "more bytes formatted than the address object holds"
+                break
+            conds += [I.byte_at(st, buf.obj, buf.off + 3 * i) == _hexch(z3.Extract(7, 4, d)), I.byte_at(st, buf.obj, buf.off + 3 * i + 1) == _hexch(z3.Extract(3, 0, d)),
+                      I.byte_at(st, buf.obj, buf.off + 3 * i + 2) == (58 if i < nsp - 1 else 0)]
+        if not I.oblige(st, z3.And(*conds), "mac: the text is not the hardware address bytes as 'xx:xx:...:xx'"):
+            ok, why = False, "text differs from the hardware address bytes"
+
+    def assign(m):
+        out = {}
+        if m is None:
+            return out
+        vals = {d.name(): m[d] for d in m.decls()}
+        for n in ["family", "halen"] + [f"d{i}" for i in range(24)]:
+            if n in vals:
+                out[n] = vals[n].as_long()
+        return out
+
+    fid = [f for f in I.findings if f[0].startswith(("mac:", "sprintf(", "getnameinfo: sockaddr length", "getnameinfo: not called"))]
+    ctx.external("address-text", ok and not fid and (nb > 0 or fam in ("null", "other")), assign(fid[0][1]) if fid else {}, detail=(fid[0][0] if fid else why))
+    I.findings = [f for f in I.findings if f not in fid]
+    report(ctx, I, ["memory-in-bounds", "cstring-within-record"], assign)
+
+
+IFF_BROADCAST, IFF_POINTOPOINT = 0x2, 0x10
+
+
+@harness("C17.ifaddrs_c", quick=[dict(fail=True, nodes=0, conv="")] + [dict(fail=False, nodes=n, conv=c) for n, c in ((0, ""), (1, "ooo"), (1, "N"), (1, "0"), (1, "o0"), (1, "oo0"), (1, "oNN"), (2, "oooooo"), (2, "Nooo"))],
+         thorough=[dict(fail=True, nodes=0, conv="")] + [dict(fail=False, nodes=n, conv=c) for n, c in ((0, ""), (1, "ooo"), (1, "N"), (1, "0"), (1, "o0"), (1, "oo0"), (1, "oNN"), (1, "ooN"), (2, "oooooo"), (2, "Nooo"), (2, "ooo0"), (2, "oooN"), (2, "ooooo0"), (3, "oooNooo"))])
+def ifaddrs_c(ctx, fail, nodes, conv):
+    """psutil_net_if_addrs: one tuple per interface address the libc list holds (entries without an address, or whose address cannot
+    be rendered, are skipped), built from that entry's name, family, address, netmask and -- by IFF_BROADCAST / IFF_POINTOPOINT --
+    broadcast or destination address; the list is released exactly once; nothing is read that getifaddrs() did not provide.
+    Contract of getifaddrs(): on failure it returns -1 and says nothing about *ifap.
+    conv = outcomes of the successive psutil_convert_ipaddr calls: o = a str object, N = None, 0 = NULL (allocation failure)."""
+    mod = module("_psutil_posix.c")
+    mk = (lambda n, v, w: z3.BitVec(n, w)) if ctx.symbolic else (lambda n, v, w: z3.BitVecVal(v, w))
+    flagsv = [ctx.int(f"flags{i}", 0, 2**32 - 1) for i in range(nodes)]
+    famv = [ctx.int(f"fam{i}", 0, 65535) for i in range(nodes)]
+    has_addr = [ctx.flag(f"has_addr{i}") for i in range(nodes)]
+    st0 = cir.State()
+    node_objs, info = [], []
+    for i in range(nodes):
+        k = st0.new_obj(f"ifaddrs{i}", 56)
+        node_objs.append(k)
+    for i in range(nodes):
+        k = node_objs[i]
+        o = st0.objs[k]
+        name = st0.new_obj(f"name{i}", 5, {j: z3.BitVecVal(b, 8) for j, b in enumerate(b"eth%d\0" % i)})
+        sa = st0.new_obj(f"addr{i}", 36, {0: z3.Extract(7, 0, mk(f"fam{i}", famv[i], 16)), 1: z3.Extract(15, 8, mk(f"fam{i}", famv[i], 16))})
+        nm = st0.new_obj(f"netmask{i}", 36)
+        ifu = st0.new_obj(f"ifu{i}", 36)
+        o.cells[0] = (8, cir.Ptr(node_objs[i + 1], 0, 0, 56) if i + 1 < nodes else cir.NULL)
+        o.cells[8] = (8, cir.Ptr(name, 0, 0, 5))
+        o.cells[16] = (4, mk(f"flags{i}", flagsv[i], 32))
+        o.cells[24] = (8, cir.Ptr(sa, 0, 0, 36) if has_addr[i] else cir.NULL)
+        o.cells[32] = (8, cir.Ptr(nm, 0, 0, 36))
+        o.cells[40] = (8, cir.Ptr(ifu, 0, 0, 36))
+        o.cells[48] = (8, cir.NULL)
+        info.append(dict(name=name, sa=sa, nm=nm, ifu=ifu))
+    outcomes = list(conv)
+
+    def getifaddrs(I, st, w, c, ifap):
+        st.log.append(("getifaddrs",))
+        if fail:
+            return z3.BitVecVal(-1, 32)          # *ifap is left as it was: the contract promises nothing about it on failure
+        I.store(st, ifap, 8, cir.Ptr(node_objs[0], 0, 0, 56) if nodes else cir.NULL)
+        return z3.BitVecVal(0, 32)
+
+    def freeifaddrs(I, st, w, c, p):
+        st.log.append(("free", p.obj))
+        return None
+
+    def convert(I, st, w, c, addr, family):
+        n = sum(1 for x in st.log if x[0] == "conv")
+        kind = outcomes[n] if n < len(outcomes) else "o"
+        r = cir.newobj(I, st, "str") if kind == "o" else I.global_ptr(st, "@_Py_NoneStruct") if kind == "N" else cir.NULL
+        st.log.append(("conv", addr.obj, family, r.obj))
+        return r
+
+    def build(I, st, w, c, fmt, *a):
+        st.log.append(("build", cir.const_cstr(I, st, fmt), a))
+        return cir.newobj(I, st, "tuple")
+
+    stubs = {"@PyList_New": lambda I, st, w, c, n: cir.newobj(I, st, "list"), "@getifaddrs": getifaddrs, "@freeifaddrs": freeifaddrs, "@psutil_convert_ipaddr": convert, "@Py_BuildValue": build,
+             "@PyList_Append": lambda I, st, w, c, l, x: z3.BitVecVal(0, 32) if st.log.append(("append", x.obj)) is None else None, "@PyErr_SetFromErrno": lambda *a: cir.NULL,
+             "@_Py_Dealloc": cir.nop, "@Py_XDECREF": cir.nop, "@Py_DecRef": cir.nop, "@Py_IncRef": cir.nop}
+    I = cir.Interp(mod, stubs)
+    res = I.run("@psutil_net_if_addrs", [cir.NULL, cir.NULL], st=st0)
+    ok, why = bool(res) or bool(I.findings), "no completed path"
+    bad_st = prev_st = None
+    for st, ret in res:
+        if not ok and bad_st is None:
+            bad_st = prev_st
+        prev_st = st
+        frees = [x for x in st.log if x[0] == "free"]
+        if fail:
+            if frees:
+                ok, why = False, f"freeifaddrs() called after getifaddrs() failed (with {frees})"
+            if not (isinstance(ret, cir.Ptr) and ret.obj is None):
+                ok, why = False, "a failed getifaddrs() must raise"
+            continue
+        if nodes and [f[1] for f in frees] != [node_objs[0]]:
+            ok, why = False, f"the address list must be released exactly once, with the list head: {frees}"
+        convs = [x for x in st.log if x[0] == "conv"]
+        builds = [x for x in st.log if x[0] == "build"]
+        errored = isinstance(ret, cir.Ptr) and ret.obj is None
+        ci, bi = 0, 0
+        for i in range(nodes):
+            if not has_addr[i]:
+                continue
+            if ci >= len(convs):
+                if not errored:
+                    ok, why = False, f"entry {i} was not converted"
+                break
+            fam16 = z3.Concat(st0.objs[info[i]["sa"]].bytes[1], st0.objs[info[i]["sa"]].bytes[0])
+            c0 = convs[ci]
+            if c0[1] != info[i]["sa"] or not I.oblige(st, c0[2] == z3.ZeroExt(16, fam16), "ifaddrs: family passed on is not the entry's sa_family"):
+                ok, why = False, f"entry {i}: address/family not taken from ifa_addr"
+            ci += 1
+            if c0[3] is None:
+                break                                   # allocation failure: error path
+            if "_Py_NoneStruct" in c0[3]:
+                continue                                # address cannot be rendered: entry skipped
+            if ci >= len(convs):
+                ok, why = False, f"entry {i}: netmask not converted"
+                break
+            c1 = convs[ci]
+            ci += 1
+            if c1[1] != info[i]["nm"]:
+                ok, why = False, f"entry {i}: netmask not taken from ifa_netmask"
+            if c1[3] is None:
+                break
+            fl = st0.objs[node_objs[i]].cells[16][1]
+            # which of broadcast / ptp is converted is decided by the flags on this path
+            bro = I.sat(st, (fl & IFF_BROADCAST) != 0)[0] == "sat" and I.sat(st, (fl & IFF_BROADCAST) == 0)[0] == "unsat"
+            p2p = (not bro) and I.sat(st, (fl & IFF_POINTOPOINT) != 0)[0] == "sat" and I.sat(st, (fl & IFF_POINTOPOINT) == 0)[0] == "unsat"
+            c2 = None
+            if bro or p2p:
+                if ci >= len(convs):
+                    ok, why = False, f"entry {i}: broadcast/destination address not converted"
+                    break
+                c2 = convs[ci]
+                ci += 1
+                if c2[1] != info[i]["ifu"]:
+                    ok, why = False, f"entry {i}: broadcast/destination not taken from ifa_ifu"
+                if c2[3] is None:
+                    break
+            if bi >= len(builds):
+                if not errored:
+                    ok, why = False, f"entry {i}: no tuple built"
+                break
+            b = builds[bi]
+            bi += 1
+            a = b[2]
+            none = "G@_Py_NoneStruct"
+            want_b = c2[3] if bro else none
+            want_p = c2[3] if p2p else none
+            got = (b[1], a[0].obj, a[2].obj, a[3].obj, a[4].obj, a[5].obj)
+            want = ("(siOOOO)", info[i]["name"], c0[3], c1[3], want_b, want_p)
+            if got != want or not I.oblige(st, a[1] == z3.ZeroExt(16, fam16), "ifaddrs: family in the tuple is not the entry's sa_family"):
+                ok, why = False, f"entry {i}: tuple {got}, expected {want} (name, family, address, netmask, broadcast, ptp)"
+        if not errored and bi != len(builds):
+            ok, why = False, "more tuples than entries"
+
+    def assign(m):
+        out = {}
+        if m is None:
+            return out
+        vals = {d.name(): m[d] for d in m.decls()}
+        for i in range(nodes):
+            for n in (f"flags{i}", f"fam{i}"):
+                if n in vals:
+                    out[n] = vals[n].as_long()
+        return out
+
+    if not ok and bad_st is None and res:
+        bad_st = prev_st
+    fid = [f for f in I.findings if f[0].startswith("ifaddrs:")]
+    ctx.external("ifaddrs-tuples", ok and not fid, assign(fid[0][1]) if fid else assign(I.sat(bad_st)[1]) if bad_st is not None else {}, detail=(fid[0][0] if fid else why))
+    I.findings = [f for f in I.findings if f not in fid]
+    uninit = [f for f in I.findings if "uninitialised" in f[0]]
+    ctx.external("no-uninitialised-read", not uninit, {}, detail=uninit[0][0] if uninit else "")
+    I.findings = [f for f in I.findings if f not in uninit]
+    report(ctx, I, ["memory-in-bounds"], assign)
+
+
 # ---- disk.c ---------------------------------------------------------------------------------------------------------------
 
 @harness("C17.partitions_c", quick=[dict(linelen=n) for n in (60, 1500, 4000)], thorough=[dict(linelen=n) for n in (10, 60, 1023, 1024, 1500, 4000, 4094)])
@@ -536,3 +1038,137 @@ def users_py(ctx):
     with k.installed(full=False, extra=[(_pslinux, "cext", Cext())]):
         got = psutil.users()
     ctx.prove(len(got) == 1 and got[0].name == "alice" and got[0].terminal == (tty or None) and got[0].host == host and ctx.eq(got[0].started, ts) and ctx.eq(got[0].pid, pid), "users-tuple", detail=f"{got}")
+
+
+NETDEV_HDR = "Inter-|   Receive                                                |  Transmit\n face |bytes    packets errs drop fifo frame compressed multicast|bytes    packets errs drop fifo colls carrier compressed\n"
+
+
+def _nic_world(ctx, nnic):
+    k = simk.Kernel(ctx)
+    simk.system_files(k)
+    names = [f"eth{i}" for i in range(nnic)]
+    k.files["/proc/net/dev"] = NETDEV_HDR + "".join(f"{n:>6}: " + " ".join(str(100 + j) for j in range(16)) + "\n" for n in names)
+    return k, names
+
+
+@harness("C17.net_if_stats_py", quick=[dict(nnic=2)], thorough=[dict(nnic=1), dict(nnic=2), dict(nnic=3)])
+def net_if_stats_py(ctx, nnic):
+    """net_if_stats() (Linux) agrees with what the native layer reports per listed interface: one entry per interface (one that
+    vanished -- ENODEV -- is skipped, any other error propagates), isup = the kernel's 'running' flag, duplex constant by the native
+    code, speed and MTU passed through, flags joined in order.  One interface symbolic at a time."""
+    import errno as _errno
+
+    k, names = _nic_world(ctx, nnic)
+    real_posix, real_cext = _pslinux.cext_posix, _pslinux.cext
+    FLAGSETS = [["up", "broadcast", "running", "multicast"], ["up", "broadcast", "multicast"], [], ["running"], ["up", "pointopoint", "noarp"]]
+    which = ctx.choice("which", list(range(nnic)))
+    mtu, speed, flags, duplex = [1500] * nnic, [1000] * nnic, [FLAGSETS[0]] * nnic, [real_cext.DUPLEX_FULL] * nnic
+    mtu[which], speed[which] = ctx.int("mtu", 0, 2**31 - 1), ctx.int("speed", 0, 2**31 - 1)
+    flags[which] = ctx.choice("flags", FLAGSETS)
+    duplex[which] = ctx.choice("duplex", [real_cext.DUPLEX_FULL, real_cext.DUPLEX_HALF, real_cext.DUPLEX_UNKNOWN])
+    fail = ctx.choice("fail", [None, ("mtu", _errno.ENODEV), ("flags", _errno.ENODEV), ("duplex", _errno.ENODEV), ("mtu", _errno.EPERM), ("duplex", _errno.EINVAL)])
+
+    def boom(what, name):
+        if fail is not None and fail[0] == what and name == names[which]:
+            raise simk.oserr(fail[1])
+
+    class Posix:
+        def __getattr__(self, n):
+            return getattr(real_posix, n)
+
+        @staticmethod
+        def net_if_mtu(name):
+            boom("mtu", name)
+            return mtu[names.index(name)]
+
+        @staticmethod
+        def net_if_flags(name):
+            boom("flags", name)
+            return list(flags[names.index(name)])
+
+        @staticmethod
+        def net_if_is_running(name):
+            return "running" in flags[names.index(name)]
+
+    class Cext:
+        def __getattr__(self, n):
+            return getattr(real_cext, n)
+
+        @staticmethod
+        def net_if_duplex_speed(name):
+            boom("duplex", name)
+            i = names.index(name)
+            return (duplex[i], speed[i])
+
+    with k.installed(full=False, extra=[(_pslinux, "cext", Cext()), (_pslinux, "cext_posix", Posix())]):
+        try:
+            st_ = ctx.guard("net_if_stats", psutil.net_if_stats, expect=(OSError,))
+            raised = None
+        except OSError as e:
+            st_, raised = None, e
+    if fail is not None and fail[1] != _errno.ENODEV:
+        ctx.prove(raised is not None and raised.errno == fail[1], "net_if_stats", detail=f"error {fail} must propagate; got {st_}")
+        return
+    ctx.prove(raised is None, "net_if_stats", detail=f"unexpected {raised!r} under {fail}")
+    if raised is not None:
+        return
+    DUP = {real_cext.DUPLEX_FULL: psutil.NIC_DUPLEX_FULL, real_cext.DUPLEX_HALF: psutil.NIC_DUPLEX_HALF, real_cext.DUPLEX_UNKNOWN: psutil.NIC_DUPLEX_UNKNOWN}
+    want_names = [n for i, n in enumerate(names) if not (fail is not None and i == which)]
+    ctx.prove(sorted(st_) == sorted(want_names), "net_if_stats", detail=f"interfaces {sorted(st_)} expected {want_names}")
+    for n in want_names:
+        if n not in st_:
+            continue
+        i = names.index(n)
+        e = st_[n]
+        ctx.prove(ctx.all([e.isup == ("running" in flags[i]), e.duplex == DUP[duplex[i]], ctx.eq(e.speed, speed[i]), ctx.eq(e.mtu, mtu[i]), e.flags == ",".join(flags[i])]),
+                  "net_if_stats", detail=f"{n}: {e} vs flags={flags[i]} duplex={duplex[i]} speed={speed[i]} mtu={mtu[i]}")
+
+
+@harness("C17.net_if_addrs_py", quick=[dict(nrec=2)], thorough=[dict(nrec=1), dict(nrec=2), dict(nrec=3)])
+def net_if_addrs_py(ctx, nrec):
+    """net_if_addrs() (Linux front end): addresses grouped per interface in family order, every field of the native record passed
+    through, AF_PACKET shown as AF_LINK with the MAC padded to six groups.  One record symbolic, the others concrete."""
+    import socket
+
+    k, names = _nic_world(ctx, 2)
+    real_posix = _pslinux.cext_posix
+    fams = [int(socket.AF_INET), int(socket.AF_INET6), 17, 99]
+    which = ctx.choice("which", list(range(nrec)))
+    fixed = [("eth0", 2, "10.0.0.1", "255.0.0.0", "10.255.255.255", None), ("eth1", 17, "00:11:22:33:44:55", None, "ff:ff:ff:ff:ff:ff", None), ("eth0", 10, "fe80::1%eth0", "ffff::", None, None)]
+    recs = []
+    for r in range(nrec):
+        if r != which:
+            recs.append(fixed[r])
+            continue
+        nm = names[ctx.choice("nic", [0, 1])]
+        fam = ctx.choice("fam", fams)
+        addr = ctx.choice("mac", ["00:11:22:33:44:55", "00:11:22", "aa", "00:11:22:33:44:55:66:77"]) if fam == 17 else {2: "10.0.9.1", 10: "fe80::9%eth0"}.get(fam, "x9")
+        mask = ctx.choice("mask", [None, "255.255.255.0"])
+        bro, ptp = ctx.choice("bp", [(None, None), ("10.0.0.255", None), (None, "10.9.9.9")])
+        recs.append((nm, fam, addr, mask, bro, ptp))
+
+    class Posix:
+        def __getattr__(self, n):
+            return getattr(real_posix, n)
+
+        @staticmethod
+        def net_if_addrs():
+            return list(recs)
+
+    # _pslinux binds `net_if_addrs = cext_posix.net_if_addrs` at import time: the native entry point is replaced under that name
+    with k.installed(full=False, extra=[(_pslinux, "cext_posix", Posix()), (_pslinux, "net_if_addrs", Posix.net_if_addrs)]):
+        ad = ctx.guard("net_if_addrs", psutil.net_if_addrs)
+    want = {}
+    for nm, fam, addr, mask, bro, ptp in sorted(recs, key=lambda x: x[1]):
+        if fam == 17:
+            while addr.count(":") < 5:
+                addr += ":00"
+            fam_ = psutil.AF_LINK
+        else:
+            try:
+                fam_ = socket.AddressFamily(fam)
+            except ValueError:
+                fam_ = fam
+        want.setdefault(nm, []).append((fam_, addr, mask, bro, ptp))
+    got = {n: [tuple(x) for x in v] for n, v in ad.items()}
+    ctx.prove(got == want, "net_if_addrs", detail=f"got {got} want {want}")
